@@ -262,6 +262,12 @@ func (m *Muxer) validate() error {
 	}
 	// Check that frame dimensions fit within the canvas.
 	canvasW, canvasH := m.canvasSize()
+	// The VP8X header stores each canvas dimension minus one in 24 bits; a
+	// canvas computed from the frame extents can exceed that.
+	if canvasW > container.MaxCanvasSize || canvasH > container.MaxCanvasSize {
+		return fmt.Errorf("%w: canvas %dx%d exceeds the maximum dimension %d",
+			ErrMuxValidation, canvasW, canvasH, container.MaxCanvasSize)
+	}
 	for i, f := range m.frames {
 		// An ANMF frame stores each offset halved in 24 bits.
 		if animated && (f.opts.OffsetX < 0 || f.opts.OffsetY < 0 ||
